@@ -134,6 +134,7 @@ def required(tier):
           'C10.MLKR.gradient': n // 2, 'C10.LMNN.gradient': n // 2,
           'C10.NCA.descent': n, 'C10.MLKR.descent': n, 'C10.LMNN.descent': n,
           'C10.LMNN.accepted-nonincreasing': n, 'C10.LMNN.result-last-accepted': n,
+          'C10.LMNN.trial-direction': n,
           'C10.zero-iterations': n // 2, 'C10.x0-is-documented-init': n,
           'monitor.trace-captured': 3 * n}
 
@@ -296,6 +297,24 @@ def run_case(spec, j):
     j.count('lmnn.rejected-steps', len(tr) - len(acc))
     j.check('C10.LMNN.accepted-nonincreasing', noninc,
             dict(det, accepted_objectives=ref_acc[:8]))
+    # every trial point is the current (last accepted) iterate minus a
+    # positive multiple of the gradient *at that iterate*
+    dir_ok, why_dir = True, None
+    cur = 0
+    for i in range(1, len(tr)):
+      step = tr[cur]['L'] - tr[i]['L']
+      g = tr[cur]['G']
+      ns, ng = np.linalg.norm(step), np.linalg.norm(g)
+      if ns > 0 and ng > 0:
+        c_ = float(np.sum(step * g)) / (ng * ng)
+        resid = np.linalg.norm(step - c_ * g) / ns
+        if not (c_ > 0 and resid <= 1e-6):
+          dir_ok = False
+          why_dir = dict(eval=i, from_eval=cur, multiple=c_, residual=resid)
+          break
+      if tr[i]['obj'] <= tr[cur]['obj']:
+        cur = i
+    j.check('C10.LMNN.trial-direction', dir_ok, dict(det, why=why_dir))
     j.check('C10.LMNN.result-last-accepted',
             np.array_equal(Lres, tr[acc[-1]]['L']),
             dict(det, n_evals=len(tr), accepted=len(acc)))
